@@ -56,6 +56,8 @@ def strategy_(draw, shard):
     case["backend"], case["optimizer"] = shard["backend"], shard["optimizer"]
     case["toys"] = shard["backend"] == "numpy" and draw(st.integers(0, 11)) == 0
     case["refusal"] = draw(st.sampled_from([None, None, None, "no_poi", "poi_fixed"]))
+    # a negative POI lower bound reaches the test either through the model's own suggestion or through par_bounds
+    case["bounds_by_argument"] = draw(st.booleans())
     return case
 
 
@@ -85,29 +87,40 @@ def _same(a, b):
     return a == b or (math.isnan(a) and math.isnan(b))
 
 
-def _unconverged_fit(pyhf, calc, fam, case, tested, asimov_mu, data, fdata, asimov_data, model, delta):
+def _unconverged_fit(pyhf, calc, fam, case, tested, asimov_mu, data, fdata, asimov_data, model, delta, bounds):
     """Name of the first of the five fits behind a hypothesis test (taken from the calculator the test returned)
-    whose objective exceeds the closed-form optimum on its dataset by more than delta; None if all converged."""
+    whose objective exceeds the closed-form optimum on its dataset by more than delta *and* which a direct mle call
+    with the intended arguments reproduces (same objective): an optimiser limitation.  None if all fits converged,
+    or if the direct call does better than the test's own fit (then the test did not fit what it should have)."""
     fp = calc.fitted_pars
     tl = pyhf.tensorlib
-    fasimov = list(asimov_data) if case["family"] != "A" else list(asimov_data)
+    cfg = model.config
+    init, fixed = cfg.suggested_init(), cfg.suggested_fixed()
     plan = [
         ("asimov-generating conditional fit", fp.asimov_pars, data, fdata, asimov_mu),
         ("conditional fit to data", fp.fixed_poi_fit_to_data, data, fdata, tested),
         ("free fit to data", fp.free_fit_to_data, data, fdata, None),
-        ("conditional fit to Asimov data", fp.fixed_poi_fit_to_asimov, asimov_data, fasimov, tested),
-        ("free fit to Asimov data", fp.free_fit_to_asimov, asimov_data, fasimov, None),
+        ("conditional fit to Asimov data", fp.fixed_poi_fit_to_asimov, asimov_data, list(asimov_data), tested),
+        ("free fit to Asimov data", fp.free_fit_to_asimov, asimov_data, list(asimov_data), None),
     ]
     for name, pars, full, fam_data, poi in plan:
         try:
             got = float(backends.tonp(pyhf.infer.mle.twice_nll(pars, tl.astensor(full), model)).reshape(-1)[0])
             ref = fam.unconditional(fam_data) if poi is None else fam.conditional(poi, fam_data)
+            if ref[0] is None:
+                return None
+            if got <= 2 * ref[1] + delta:
+                continue
+            if poi is None:
+                _, direct = pyhf.infer.mle.fit(list(full), model, init, bounds, fixed, return_fitted_val=True)
+            else:
+                _, direct = pyhf.infer.mle.fixed_poi_fit(poi, list(full), model, init, bounds, fixed, return_fitted_val=True)
+            direct = float(backends.tonp(direct))
         except Exception:  # noqa: BLE001 - no diagnosis possible: keep the verdict
             return None
-        if ref[0] is None:
-            return None
-        if got > 2 * ref[1] + delta:
+        if abs(direct - got) <= 1e-6 * (1 + abs(got)):
             return name
+        return None
     return None
 
 
@@ -128,10 +141,14 @@ def run_case(case, ctx):
         opt = pyhf.optimize.scipy_optimizer(tolerance=1e-10)
     else:
         opt = pyhf.optimize.minuit_optimizer(tolerance=1e-4, strategy=2)
+    by_arg = bool(case.get("bounds_by_argument")) and case["family"] == "A" and case["bounds"][0] != 0.0
+    if by_arg:
+        spec, _ = build(dict(case, bounds=[0.0, case["bounds"][1]]))  # the model itself suggests (0, hi)
     tl = backends.use(case["backend"], optimizer=opt)
     try:
         model = pyhf.Model(spec, poi_name="mu")
         cfg = model.config
+        arg_bounds = [tuple(case["bounds"])] if by_arg else None
         data = list(case["data"])
         fdata = case["data"]
         sig = f"C08/{ts}"
@@ -158,6 +175,8 @@ def run_case(case, ctx):
         # ---- all-flags call -----------------------------------------------------------------------------
         calctype = "toybased" if case["toys"] else "asymptotics"
         kw = {"test_stat": ts, "calctype": calctype}
+        if arg_bounds:
+            kw["par_bounds"] = arg_bounds
         if case["toys"]:
             kw.update(ntoys=12, track_progress=False)
             import numpy as np
@@ -252,7 +271,7 @@ def run_case(case, ctx):
         else:
             asimov = fam.asimov(asimov_mu, fdata)
         okA, got_asimov = ctx.call(f"{sig}/generate_asimov_data", pyhf.infer.calculators.generate_asimov_data,
-                                   asimov_mu, data, model, cfg.suggested_init(), cfg.suggested_bounds(), cfg.suggested_fixed())
+                                   asimov_mu, data, model, cfg.suggested_init(), arg_bounds or cfg.suggested_bounds(), cfg.suggested_fixed())
         delta = 1e-4 if case["optimizer"] == "scipy" else 1e-3
         if okA:
             ga = [float(v) for v in backends.tonp(got_asimov)]
@@ -287,7 +306,8 @@ def run_case(case, ctx):
                 got[f"b{i}"] = vals["band"][i]
             bad = [k for k, v in got.items() if not (lo[k] - (1e-9 + 1e-6 * hi[k]) <= v <= hi[k] + (1e-9 + 1e-6 * hi[k]))]
             if bad and okA:
-                which = _unconverged_fit(pyhf, calc, fam, case, 0.0 if is_q0 else mu, asimov_mu, data, fdata, ga, model, delta)
+                which = _unconverged_fit(pyhf, calc, fam, case, 0.0 if is_q0 else mu, asimov_mu, data, fdata, ga, model, delta,
+                                         arg_bounds or cfg.suggested_bounds())
                 if which:
                     # the envelope presupposes fits converged to `delta`; this one is not (optimiser limitation
                     # recorded under C05), the values computed from it say nothing about hypotest
@@ -303,6 +323,8 @@ def run_case(case, ctx):
                     ctx.fail(f"{sig}/analytic_value/{kind}/{case['family']}", which=k, got=v, lo=lo[k], hi=hi[k],
                              q=qr, qA=qA, mu=mu)
         multibin = case["family"] == "C" or len(case["s"]) > 1
+        if arg_bounds:
+            ctx.label("poi_bounds_passed_as_argument")
         ctx.label(f"test_stat={ts}", f"family={case['family']}", f"backend={case['backend']}",
                   f"optimizer={case['optimizer']}")
         if sensitive:
